@@ -52,6 +52,25 @@ def axioms(apps):
     return ax
 
 
+def band_facts(apps, M):
+    """Ground facts from the real libm at the two voltages where the power law crosses the clamp values
+    (taken 1e-9 outside the band) plus monotonicity instances towards them: outside the band the law is
+    beyond the clamp, so readings there are pinned to lo / hi; inside the band the law stays uninterpreted."""
+    C, E, lo, hi = M["C"], M["E"], M["lo"], M["hi"]
+    ax = []
+    x_hi = math.pow(hi / C, 1 / E)  # voltage at which the law equals hi (small voltage)
+    x_lo = math.pow(lo / C, 1 / E)  # voltage at which the law equals lo (large voltage)
+    pts = [x_hi * (1 - 1e-9), x_lo * (1 + 1e-9)]
+    assert C * math.pow(pts[0], E) >= hi and C * math.pow(pts[1], E) <= lo
+    for g in pts:
+        ax.append(PW(lift(g), lift(E)) == lift(math.pow(g, E)))
+    for x, a in apps:
+        for g in pts:
+            ax.append(z3.Implies(z3.And(a == lift(E), x > 0, x <= lift(g)), PW(x, a) >= PW(lift(g), lift(E))))
+            ax.append(z3.Implies(z3.And(a == lift(E), x > 0, x >= lift(g)), PW(x, a) <= PW(lift(g), lift(E))))
+    return ax
+
+
 class Env:
     ds_attached = True
 
@@ -115,6 +134,7 @@ def path(c, job):
             r2 = s2.getDistance()
             if c.symbolic:
                 c.add(*axioms(sm.apps))
+                c.add(*band_facts(sm.apps, M))
             c.reach("mono")
             c.prove("C17.range reading-in-range", s_and(r1 >= lo, r1 <= hi, r2 >= lo, r2 <= hi))
             c.prove("C17.mono reading-never-increases-with-voltage", r1 >= r2)
@@ -128,6 +148,57 @@ def path(c, job):
                     law = C * math.pow(v1, E)
                     if lo <= law <= hi:
                         c.prove("C17.law datasheet-power-law-inside-range", r1 == law)
+            return
+        if kind == "history":
+            # the same sensor object read several times: every reading depends on the current voltage only
+            s = _mk(model, env)
+            vs = [c.real(f"v{i}", -10, 10) for i in range(3)]
+            rs = []
+            for v in vs:
+                env.v[id(s.distance)] = v
+                rs.append(s.getDistance())
+            s2 = _mk(model, env)
+            env.v[id(s2.distance)] = vs[-1]
+            fresh = s2.getDistance()
+            if c.symbolic:
+                c.add(*axioms(sm.apps))
+                c.add(*band_facts(sm.apps, M))
+            c.reach("history")
+            c.prove("C17.history reading-depends-on-current-voltage-only", s_eq(rs[-1], fresh))
+            for (va, ra), (vb, rb) in zip(zip(vs, rs), list(zip(vs, rs))[1:]):
+                c.prove("C17.mono reading-never-increases-with-voltage", rb <= ra, when=(va <= vb))
+                c.prove("C17.mono reading-never-increases-with-voltage", ra <= rb, when=(vb <= va))
+            return
+        if kind == "sim2":
+            # two setDistance() calls in a row on one helper (incl. repeating a value and 0 as the first value)
+            s = _mk(model, env)
+            sim = getattr(dsim, model + "Sim")(s)
+            first = [0, c.real("d0", -1000, 1000)][c.choose("first", 2)]
+            sim.setDistance(first)
+            r0 = s.getDistance()
+            d = c.real("d", -1000, 1000)
+            sim.setDistance(d)
+            r = s.getDistance()
+            if c.symbolic:
+                invE = 1 / E
+                ax = axioms(sm.apps)
+                for i in range(0, len(sm.apps) - 1):
+                    (x0, a0), (x1, a1) = sm.apps[i], sm.apps[i + 1]
+                    if z3.is_rational_value(a0) and z3.is_rational_value(a1):
+                        ax.append(z3.Implies(z3.And(x0 > 0, x1 == PW(x0, a0), a0 * a1 <= lift(1 + 2 ** -40), a0 * a1 >= lift(1 - 2 ** -40)), PW(x1, a1) == x0))
+                for x0, a0 in sm.apps:
+                    for p in (lo * (1 - 1e-9), hi * (1 + 1e-9)):
+                        xx = lift(p / C)
+                        ax.append(PW(xx, lift(invE)) == lift(math.pow(p / C, invE)))
+                        ax.append(z3.Implies(z3.And(a0 == lift(invE), x0 > 0, x0 <= xx), PW(x0, a0) >= PW(xx, lift(invE))))
+                        ax.append(z3.Implies(z3.And(a0 == lift(invE), x0 > 0, x0 >= xx), PW(x0, a0) <= PW(xx, lift(invE))))
+                c.add(*ax)
+            c.reach("sim2")
+            cl0 = sx.s_ite(first > hi, hi, sx.s_ite(first < lo, lo, first)) if not isinstance(first, int) else lo
+            clamp = sx.s_ite(d > hi, hi, sx.s_ite(d < lo, lo, d))
+            c.prove("C17.sim reading-is-clamped-set-distance", s_close(r0, cl0, 1e-9) if c.symbolic else abs(r0 - cl0) <= 1e-6 * cl0, info=dict(first=str(first)))
+            c.prove("C17.sim reading-is-clamped-set-distance", s_close(r, clamp, 1e-9) if c.symbolic else abs(r - clamp) <= 1e-6 * clamp)
+            c.prove("C17.sim helper-returns-set-distance", s_eq(sim.getDistance(), d))
             return
         if kind == "sim":
             s = _mk(model, env)
@@ -168,7 +239,7 @@ class C17(Spec):
     id = "C17"
     design_ref = "DESIGN.md §7 C17"
     real_capable = False
-    clauses = ["C17.range reading", "C17.range special", "C17.mono", "C17.law", "C17.sim reading", "C17.sim helper"]
+    clauses = ["C17.range reading", "C17.range special", "C17.mono", "C17.law", "C17.sim reading", "C17.sim helper", "C17.history"]
     stubs = ["wpilib.AnalogInput.getVoltage / AnalogInputSim.setVoltage: a symbolic real per input",
              "math.pow replaced by uninterpreted pw(x,a) + instantiated axioms (positivity, monotone in the base by sign of exponent, congruence, "
              "pw(pw(x,1/E),E)=x) + ground facts from the real libm at the clamp end-points"]
@@ -176,13 +247,13 @@ class C17(Spec):
     outside = ["accuracy of libm pow", "NaN input voltage", "the 4096 ADC codes as concrete doubles (a floating-point question no installed solver settles with a transcendental function)"]
 
     def jobs(self, tier):
-        return [dict(model=m, kind=k) for m in MODELS for k in ("mono", "sim", "inf")]
+        return [dict(model=m, kind=k) for m in MODELS for k in ("mono", "sim", "inf", "history", "sim2")]
 
     def bounds(self, tier):
         return dict(voltage="every real in [-1000,1000] (symbolic) plus +-inf, 0, tiny, huge (concrete)", distance="every real in [-1000,1000]", models=list(MODELS))
 
     def reach_required(self, tier):
-        return ["mono", "sim", "special-values", "sim-symbolic-inside", "sim-clamped-concrete"]
+        return ["mono", "sim", "special-values", "sim-symbolic-inside", "sim-clamped-concrete", "history", "sim2"]
 
     def path_fn(self, c, job):
         path(c, job)
